@@ -588,9 +588,9 @@ func genProm(tier string, seed int64, only string) []*Case {
 	pick := func(l []string) string { return l[r.Intn(len(l))] }
 
 	// 3. every generated arity (Pipe1 … Pipe24)
-	perArity := 6
+	perArity := 10
 	if thorough {
-		perArity = 60
+		perArity = 200
 	}
 	for n := 1; n <= promMaxArity; n++ {
 		for k := 0; k < perArity; k++ {
@@ -601,9 +601,9 @@ func genProm(tier string, seed int64, only string) []*Case {
 	}
 
 	// 4. random chains, repeated and concurrent subscriptions, stand-alone counters, both pipes
-	nRandom := 3000
+	nRandom := 8000
 	if thorough {
-		nRandom = 60000
+		nRandom = 200000
 	}
 	for k := 0; k < nRandom; k++ {
 		n := 1 + r.Intn(4)
